@@ -16,8 +16,27 @@ Decisions taken from the property text
  * in addition (DESIGN.md C43) every real in-domain value is sent to the verified evaluator with the same tolerance
    (`acc <f> x w 53 5`, i.e. 2^(5-53) = 2^-48 relative to the TRUE value); the verdicts are reported as
    `fp_vs_true_value`; they do not decide pass/fail (C12 covers mp's own accuracy).
+
+Argument families (round 3).  Besides the seeded mixture of DGen the check walks, for EVERY function of the list, the
+neighbourhoods of the points where a rewritten formula typically breaks (CRIT below: zeros, poles, branch points, thresholds
+of the binary64 range, exact powers) by 0, +-1, +-2, +-3 and +-2^k units in the last place, with both signs; the same
+centres combined with signed zeros / tiny / huge second components as complex arguments (and real values passed with the
+complex TYPE); for cospi/sinpi every binade from 2^-3 to 2^53 (first and last half-integers of the binade, a random one,
+the binade boundary) and the binades beyond, where every double is an integer; for power zero bases of every type,
+integer exponents up to several hundred in both signs for real and complex bases, half-integer / reciprocal-integer
+exponents, bases next to 1 with huge exponents, complex-typed operands with zero imaginary part.
+
+Site attribution.  Several recorded findings are described by broad predicates (e.g. "the cospi result is below 1/8").
+A disagreement that the recorded MECHANISM cannot produce is therefore reported under the name of the inner routine
+(`math2._cospi_real`, `math2.pow[integer exponent]`, `math2.asin[not the conjugate branch]` ...) so that it is not absorbed:
+ * sinpi/cospi multiply the exactly reduced argument r = |x| mod 1/2 by the double pi; the relative error of the result is
+   about 2^-52 r/(1/2 - r) and exceeds 2^-48 only for r > 0.47: a real-argument disagreement with r < 0.4375 is not that;
+   likewise complex arguments with |Im| <= 4 and (r < 0.4375 or a result of modulus >= 1/8);
+ * float ** float with a negative base and an INTEGER exponent is libm's pow, not the polar formula of finding D26;
+ * asin/acos of a real x > 1 that is not the complex conjugate of mp's value; a value at a complex argument on a branch cut
+   that is neither conj(v) nor -conj(v) of mp's value v (the value on the other side of the cut).
 """
-import math, cmath, time, random, struct
+import math, cmath, time, random, struct, sys
 from fractions import Fraction
 import encl_check as EC
 from encl_check import mp, guarded
@@ -177,6 +196,393 @@ class DGen:
         return x, k
 
 
+# ------------------------------------------------------------------------------------------------------------------------
+# structured families (round 3)
+# ------------------------------------------------------------------------------------------------------------------------
+MAXD = sys.float_info.max
+TINY = 2.0 ** -1074
+LN2 = math.log(2.0)
+EXPLIKE_RE = ("exp", "sinh", "cosh", "tanh", "coth", "sech", "csch")        # e^{|Re z|} governs the size of the result
+
+
+def P2(k):
+    return math.ldexp(1.0, k)
+
+
+def ulps(x, j):
+    """the double j units in the last place away from x (ordered-integer representation of binary64); x itself when the
+    step leaves the finite range"""
+    if j == 0:
+        return x
+    i = struct.unpack("<q", struct.pack("<d", x))[0]
+    if i < 0:
+        i = -(i & 0x7FFFFFFFFFFFFFFF)
+    i += j
+    b = ((-i) | (1 << 63)) if i < 0 else i
+    y = struct.unpack("<d", struct.pack("<Q", b & 0xFFFFFFFFFFFFFFFF))[0]
+    return y if math.isfinite(y) else x
+
+
+def perturbation(r):
+    c = r.random()
+    if c < 0.2:
+        return 0
+    if c < 0.65:
+        return r.choice([1, -1, 2, -2, 3, -3])
+    k = r.randint(2, 44)
+    return r.choice([1, -1]) * ((1 << k) + r.getrandbits(k) * r.choice([0, 1]))
+
+
+BASE = [0.0, TINY, P2(-1022), P2(-537), P2(-512), P2(-60), P2(-27), P2(-26), 0.5, 1.0, 1.0, 2.0, P2(27), P2(52), P2(53), P2(512),
+        P2(1023), MAXD]
+
+
+def crit(name, r):
+    """centres of the structured neighbourhoods of `name` (non-negative; the sign is drawn separately): zeros, poles,
+    branch points, thresholds of the binary64 range, arguments with exactly representable values"""
+    if name in ("sqrt",):
+        m = r.randint(1, (1 << 26) - 1)
+        return BASE + [float(m * m), float(m * m) * P2(2 * r.randint(-480, 480)), P2(2 * r.randint(-511, 511)),
+                       P2(2 * r.randint(-511, 511) + 1), 4.0, 0.25, 2.25]
+    if name == "cbrt":
+        m = r.randint(1, (1 << 17) - 1)
+        k = r.randint(-340, 320)
+        return BASE + [float(m ** 3), float(m ** 3) * P2(3 * r.randint(-300, 300)), 8.0, 27.0, 0.125, P2(3 * k), P2(3 * k + 1),
+                       P2(3 * k + 2)]
+    if name == "exp":
+        k = r.choice([1, 2, 3, 10, 100, 1000, 1021, 1022, 1023, 1024, 1074])
+        return BASE[:12] + [k * LN2, 709.782712893384, 709.0, 710.0, 708.3964185322641, 745.1332191019411, 744.0, 746.0,
+                            88.72283905206835, 36.04365338911715, float(r.randint(1, 709))]
+    if name in ("log", "ln"):
+        k = r.randint(1, 700)
+        return BASE + [P2(r.randint(-1074, 1023)), P2(r.randint(-60, 60)), math.e, math.exp(k), math.exp(-k), 10.0,
+                       10.0 ** r.randint(1, 22), 1.0, 1.0]
+    if name in ("sin", "cos", "tan", "cot", "sec", "csc"):
+        out = BASE + [k * (math.pi / 2) for k in (1, 2, 3, 4, r.randint(5, 100), r.randint(100, 1 << 20))]
+        for e in (r.randint(-55, 200), r.randint(200, 960)):
+            t = EC.nearest_to_k_pi_2(53, e)
+            if t:
+                out.append(math.ldexp(t[0], e))
+        return out
+    if name in ("sinh", "cosh", "tanh", "coth", "sech", "csch"):
+        return BASE[:12] + [math.asinh(1.0), 19.061547465398498, 22.0, 22.18070977791825, 354.891356446692, 709.782712893384,
+                            710.4758600739439, 710.0, 711.0, 745.1332191019411, 750.0, 1000.0, P2(27), float(r.randint(1, 709))]
+    if name in ("asin", "acos", "atanh", "asech"):
+        return BASE + [math.sqrt(0.5), math.sqrt(0.75), 1.0, 1.0, 1.0 + P2(-r.randint(1, 52)), 1.0 - P2(-r.randint(1, 53))]
+    if name in ("asec", "acsc", "acosh", "acoth"):
+        return BASE + [1.0, 1.0, math.sqrt(2.0), 1.0 + P2(-r.randint(1, 52)), 1.0 - P2(-r.randint(1, 53))]
+    return BASE + [math.sqrt(3.0), 1 / math.sqrt(3.0), P2(r.randint(-1074, 1023))]        # atan, acot, asinh, acsch
+
+
+def pi_family(r):
+    """arguments of cospi / sinpi: for every binade [2^e, 2^(e+1)), e = -3..53, the boundary, the first and the last
+    half-integers / integers of the binade and a random one, each moved by 0, a few and 2^k units in the last place (so that
+    the zero of the function is approached from both sides in every binade, also where x + 1/2 or 2x is not exact); then
+    binades in which every double is an even integer"""
+    out = []
+
+    def around(c, tag):
+        out.append((c, tag))
+        out.append((ulps(c, r.choice([1, -1, 2, -2, 3, -3])), tag + "+ulps"))
+        k = r.randint(2, 44)
+        out.append((ulps(c, r.choice([1, -1]) * ((1 << k) + r.getrandbits(k) * r.choice([0, 1]))), tag + "+2^k ulps"))
+
+    for e in range(-3, 54):
+        lo = P2(e)
+        around(lo, "binade_boundary")
+        if e < 0:
+            around(lo * 1.5, "mid_binade")            # 0.75, 0.375, 0.1875
+            continue
+        n = 1 << e
+        if e <= 51:
+            around(lo + 0.5, "first_half_integer")
+            around(2 * lo - 0.5, "last_half_integer")
+            around(2 * lo - 1.0, "last_integer")
+            around(r.randint(2 * n, 4 * n - 1) / 2.0, "random_half_integer")
+            if e >= 1:
+                around(r.randint(4 * n, 8 * n - 1) / 4.0, "random_quarter_integer")
+        elif e == 52:
+            for c in (lo + 1, 2 * lo - 1, 2 * lo - 2, float(n + r.randint(0, n - 1))):
+                around(c, "integers_only")
+        else:
+            for c in (lo + 2, 2 * lo - 2, float(n + 2 * r.randint(0, n // 2 - 1))):
+                around(c, "even_integers_only")
+    for e in (54, 55, 56, 60, 64, 100, 511, 512, 1000, 1022, 1023):
+        around(P2(e), "multiples_of_four")
+        around(math.ldexp(1 + r.random(), e), "multiples_of_four")
+    around(0.0, "zero"); around(TINY, "tiny"); around(P2(-1022), "tiny"); around(P2(-537), "tiny"); around(MAXD, "max")
+    return out
+
+
+def real_family(name, r, count):
+    """count structured real arguments of `name`"""
+    cs = crit(name, r)
+    out = []
+    for i in range(count):
+        c = cs[i % len(cs)] if i < len(cs) else r.choice(cs)
+        x = ulps(c, perturbation(r))
+        if r.random() < 0.5:
+            x = -x
+        out.append((x, "crit"))
+    return out
+
+
+def complex_family(name, r, count):
+    """count structured complex arguments: a (perturbed) centre of `name` in one component, and in the other one a signed
+    zero (a real or purely imaginary value with the complex TYPE), a tiny, an ordinary, a second centre or a huge number;
+    points of modulus 1 (exactly: Pythagorean pairs; nearly: rounded (cos t, sin t), also for tiny t); points 2^-k away from
+    1, -1, i, -i, 0 in every direction; for the functions that grow like e^|Re z| or e^|Im z| arguments just beyond the
+    overflow threshold of |e^z| whose result still has representable components; every combination of signs"""
+    cs = [c for c in crit(name, r)]
+    # components that only push the result out of the binary64 range are mostly (not always) brought back
+    lim_re = 700.0 if name in ("exp", "sinh", "cosh", "sech", "csch") else None
+    lim_im = 700.0 if name in ("sin", "cos", "sec", "csc") else None
+    small = [0.0, 0.0, TINY, P2(-1022), P2(-537), P2(-60), P2(-27)]
+    big = [P2(27), P2(60), P2(511), P2(512), 1e300, MAXD]
+    pyth = [(3, 4, 5), (5, 12, 13), (8, 15, 17), (7, 24, 25), (20, 21, 29), (119, 120, 169), (696, 697, 985)]
+    edge = {"exp": 709.782712893384, "sinh": 710.4758600739439, "cosh": 710.4758600739439, "sech": 710.4758600739439,
+            "csch": 710.4758600739439, "sin": 710.4758600739439, "cos": 710.4758600739439, "sec": 710.4758600739439,
+            "csc": 710.4758600739439, "cospi": 710.4758600739439 / math.pi, "sinpi": 710.4758600739439 / math.pi}
+    out = []
+    for i in range(count):
+        c = ulps(cs[i % len(cs)] if i < len(cs) else r.choice(cs), perturbation(r))
+        q = r.random()
+        fixed = None
+        if q < 0.22:
+            o = r.choice(small[:2])
+        elif q < 0.37:
+            o = r.choice(small)
+        elif q < 0.47:
+            o = r.uniform(0, 4)
+        elif q < 0.60:
+            o = ulps(r.choice(cs), perturbation(r))
+        elif q < 0.68:
+            o = r.choice(big)
+        elif q < 0.76:
+            if r.random() < 0.5:
+                a, b, h = r.choice(pyth)
+                s = P2(r.choice([0, 0, 1, -1, 10, -10]))
+                c, o = a / h * s, b / h * s              # |z| = s up to the rounding of the two quotients
+            else:
+                t = r.uniform(0, math.pi / 2) if r.random() < 0.5 else P2(-r.randint(1, 60))
+                c, o = math.cos(t), math.sin(t)
+        elif q < 0.88 or name not in edge:
+            # next to 1, -1, i, -i (branch points / zeros / poles of most functions of the list) and to 0
+            z0 = r.choice([1, 1, -1, 1j, -1j, 0])
+            d = P2(-r.randint(1, 60 if z0 else 1074))
+            dz = complex(d * r.choice([1, -1, 0, r.uniform(-1, 1)]), d * r.choice([1, -1, 0, r.uniform(-1, 1), P2(-r.randint(1, 40))]))
+            fixed = z0 + dz
+        else:
+            # |e^z| just beyond the overflow threshold: the components |e^z| cos t, |e^z| sin t of the result are both still
+            # representable for t within ~0.4 of an odd multiple of pi/4 and |e^z| up to sqrt(2) * max double
+            sc = math.pi if name in ("cospi", "sinpi") else 1.0
+            if r.random() < 0.6:
+                u = edge[name] + r.uniform(0, 0.34) / sc
+                v = (math.pi / 4 + r.randint(-2, 1) * math.pi / 2 + r.uniform(-0.4, 0.4)) / sc
+            else:
+                u = edge[name] + r.uniform(-0.6, 0.4) / sc
+                v = r.uniform(-math.pi, math.pi) / sc
+            if name != "exp" and r.random() < 0.5:
+                u = -u
+            out.append((complex(u, v) if name in EXPLIKE_RE else complex(v, u), "complex"))
+            continue
+        if fixed is not None:
+            if r.random() < 0.5:
+                fixed = fixed.conjugate()
+            if r.random() < 0.3:
+                fixed = -fixed
+            out.append((fixed, "complex"))
+            continue
+        re, im = (c, o) if r.random() < 0.5 else (o, c)
+        if lim_re is not None and abs(re) > lim_re and r.random() < 0.85:
+            re = r.uniform(0, lim_re)
+        if lim_im is not None and abs(im) > lim_im and r.random() < 0.85:
+            im = r.uniform(0, lim_im)
+        if r.random() < 0.5:
+            re = -re
+        if r.random() < 0.5:
+            im = -im
+        out.append((complex(re, im), "complex"))
+    return out
+
+
+def power_family(r, quick):
+    """structured (base, exponent) pairs of fp.power"""
+    out = []
+    zero_bases = [0.0, -0.0, 0j, complex(0.0, -0.0), complex(-0.0, 0.0), complex(-0.0, -0.0)]
+    for a in zero_bases:
+        for b in [1.0, 2.0, 3.0, 0.5, 1 / 3., 100.0, 101.0, 1e300, TINY, 0.0, -0.0, r.uniform(0, 10), float(r.randint(1, 400)),
+                  complex(2.0, 0.0), complex(0.5, 0.0), complex(r.randint(1, 9), 0.0), complex(r.uniform(0, 9), -0.0), 0j,
+                  -1.0, complex(2, 1), 1j]:
+            out.append((a, b, "zero_base"))
+
+    def base_of_modulus(mag, kind):
+        if kind == "pos":
+            return mag
+        if kind == "neg":
+            return -mag
+        if kind == "real_as_complex":
+            return complex(r.choice([1, -1]) * mag, r.choice([0.0, -0.0]))
+        if kind == "imag":
+            return complex(r.choice([0.0, -0.0]), r.choice([1, -1]) * mag)
+        if kind == "gauss":
+            # small Gaussian dyadic: both parts have a few bits, products stay exact for a while
+            k = r.randint(0, 3)
+            return complex(r.randint(-15, 15) / 2.0 ** k, r.choice([1, -1]) * r.randint(1, 15) / 2.0 ** k)
+        t = r.uniform(-math.pi, math.pi)
+        return complex(mag * math.cos(t), mag * math.sin(t))
+
+    kinds = ["pos", "neg", "real_as_complex", "imag", "gauss", "generic", "generic", "gauss"]
+    n_int = 1800 if quick else 36000
+    for i in range(n_int):
+        c = i % 9
+        if c in (0, 7):
+            n = r.randint(2, 12)
+        elif c == 8:
+            n = r.randint(12, 24)
+        elif c == 1:
+            n = r.randint(20, 98)
+        elif c == 2:
+            n = r.choice([99, 100, 101, 102, 127, 128, 129])           # CPython multiplies out |n| <= 100
+        elif c == 3:
+            n = r.randint(101, 400)
+        elif c == 4:
+            n = r.randint(400, 1000)
+        elif c == 5:
+            n = 1 << r.randint(1, 9)
+        else:
+            n = r.choice([1, 2, 3])
+        lim = min(r.choice([1.0, 3.0, 40.0]), 1000.0 / n)
+        kind = kinds[(i // 9) % len(kinds)]
+        a = base_of_modulus(2.0 ** r.uniform(-lim, lim), kind)
+        if kind == "gauss" and abs(a) > 0 and abs(math.log2(abs(a))) * n > 1000:
+            a = a / abs(a) * 2.0 ** r.uniform(-lim, lim)
+        if r.random() < 0.5:
+            n = -n
+        b = float(n) if r.random() < 0.7 else complex(n, r.choice([0.0, -0.0]))
+        out.append((a, b, "integer_exponent:" + kind))
+    n_frac = 900 if quick else 18000
+    for i in range(n_frac):
+        kind = kinds[i % len(kinds)]
+        c = r.random()
+        if c < 0.3:
+            b = r.choice([0.5, -0.5, 1.5, 2.5, -1.5, r.randint(0, 300) + 0.5, -(r.randint(0, 300) + 0.5)])
+        elif c < 0.5:
+            b = 1.0 / r.choice([3, 3, 5, 7, 10, r.randint(2, 1000)]) * r.choice([1, -1, 2])
+        elif c < 0.7:
+            b = r.uniform(-700, 700)
+        elif c < 0.8:
+            b = r.choice([0.0, -0.0, 1.0, -1.0, 2.0, -2.0])
+        else:
+            b = complex(r.uniform(-6, 6), r.choice([r.uniform(-6, 6), P2(-r.randint(20, 1074)), 0.0, -0.0]))
+        lim = min(6.0, 1000.0 / max(1.0, abs(b)))
+        a = base_of_modulus(2.0 ** r.uniform(-lim, lim), kind)
+        out.append((a, b, "fractional_exponent:" + kind))
+    n_one = 400 if quick else 8000
+    for i in range(n_one):
+        k = r.randint(1, 52)
+        a = 1.0 + r.choice([1, -1]) * P2(-k) * r.choice([1, 1, 3, 1 + r.random()])
+        j = r.randint(0, k + 9)
+        b = r.choice([1, -1]) * (P2(j) if r.random() < 0.5 else float(r.randint(1 << j, (2 << j) - 1)) if r.random() < 0.5
+                                 else math.ldexp(1 + r.random(), j))
+        if r.random() < 0.3:
+            a = complex(a, r.choice([0.0, -0.0, P2(-k), -P2(-k), TINY]))
+        out.append((a, b, "base_next_to_one"))
+    n_range = 400 if quick else 8000
+    for i in range(n_range):
+        # bases over the whole binary64 range with exponents keeping the result inside it; exact powers of 2 and 10
+        c = r.random()
+        if c < 0.3:
+            a, b = 2.0, float(r.randint(-1074, 1023))
+        elif c < 0.45:
+            a, b = 10.0, float(r.randint(-323, 308))
+        elif c < 0.6:
+            a, b = r.choice([TINY, P2(-1022), MAXD, P2(1023), 1e300, 1e-300]), r.choice([1.0, -1.0, 0.5, -0.5, 1 / 3., 2.0, 0.0, 1e-3])
+        else:
+            e = r.randint(-1074, 1023)
+            a = math.ldexp(1 + r.random(), e)
+            b = r.uniform(-1, 1) * 1000.0 / max(1, abs(e))
+        if r.random() < 0.25:
+            a = complex(a, r.choice([0.0, -0.0]))
+        out.append((a, b, "whole_range"))
+    for i in range(60 if quick else 1500):
+        # complex bases whose modulus is next to (or beyond) the ends of the binary64 range while the parts are inside
+        h = r.choice([MAXD, P2(1023), 1e308, P2(1022), TINY, 3 * TINY, P2(-1070), P2(-1022), P2(-1030)])
+        a = complex(r.choice([1, -1]) * h * r.choice([1, 1, 0.75, 0.5, r.random()]), r.choice([1, -1]) * h * r.choice([1, 1, 0.75, 0.5, r.random()]))
+        b = r.choice([0.5, 1 / 3., -0.5, 1.0, -1.0, 0.25, 0.9, 1e-3, complex(0.5, 0.0), complex(0.5, 0.5), 2.0 if h < 1 else 0.125])
+        out.append((a, b, "modulus_at_range_end"))
+    return out
+
+
+def cut_mirror(w, v):
+    """w is (within the tolerance) the value on the other side of a branch cut: conj(v) (cut on the real axis) or -conj(v)
+    (cut on the imaginary axis, odd function)"""
+    v = complex(v)
+    return agree(w, v.conjugate()) or agree(w, -v.conjugate())
+
+
+def on_cut(name, z):
+    """z (complex type) lies exactly on a branch cut of the table function `name`"""
+    if name in ("sqrt", "log", "ln", "cbrt"):
+        return z.imag == 0 and z.real < 0
+    if name in ("asin", "acos"):
+        return z.imag == 0 and abs(z.real) > 1
+    if name == "atan":
+        return z.real == 0 and abs(z.imag) > 1
+    return None
+
+
+def narrow_site(name, x, w, v, cplx, site):
+    """a more specific site name when the mechanism of the recorded finding cannot have produced the disagreement (module
+    docstring, 'Site attribution'); `site` otherwise"""
+    try:
+        if name in ("sinpi", "cospi"):
+            if abs(x.real) >= 2.0 ** 1023:
+                return site                                                 # divmod(x, 0.5) overflows (separate finding)
+            if not cplx:
+                rr = math.fmod(abs(x), 0.5)                                  # exact
+                return site if rr >= 0.4375 else "math2._%s_real" % name
+            rr = math.fmod(abs(x.real), 0.5)
+            if abs(x.imag) > 4 or (rr >= 0.4375 and abs(complex(w)) < 0.125):
+                return site
+            return "math2._%s_complex" % name
+        if name in ("asin", "acos") and not cplx and x > 1:
+            return site if agree(complex(w).conjugate(), v) else site + "[not the conjugate branch]"
+        if cplx and (x.real == 0 or x.imag == 0) and on_cut(name, x) is not None:
+            if name == "cbrt" and x != 0 and abs(math.log2(abs(x))) >= 200:
+                return site                                                 # z**(1./3) far from |z| = 1: finding D24
+            if on_cut(name, x):
+                return site if cut_mirror(w, v) else site + "[not the value across the cut]"
+            return site + "[not on a branch cut]"
+    except (OverflowError, ValueError):
+        pass
+    return site
+
+
+def power_site(a, b, w, v):
+    """site of a disagreement of fp.power: float**float with an integer exponent is libm's pow; a complex-typed base on
+    the negative real axis follows the sign of its zero imaginary part (cmath convention; mp has no signed zero) - only
+    then, and only if fp's value is the one across the cut, the disagreement is reported as the branch-cut finding"""
+    if type(a) is float and type(b) is float and b == math.floor(b):
+        return "math2.pow[integer exponent]"
+    if type(a) is complex and a.imag == 0 and a.real < 0:
+        def thunk():
+            old = mp.prec
+            try:
+                mp.prec = 120
+                z = mp.exp(mp.mpmathify(b) * mp.conj(mp.log(mp.mpmathify(a))))
+                return complex(z)
+            finally:
+                mp.prec = old
+        st, v2 = guarded(thunk)
+        try:
+            if st == "ok" and cmath.isfinite(v2) and not agree(w, v) and agree(w, v2):
+                return "math2.pow[base on the branch cut]"
+        except (OverflowError, ValueError):
+            pass
+    return "math2.pow"
+
+
 def run(ctx):
     t0 = time.time()
     r = random.Random(ctx.seed * 15485863 + 43)
@@ -198,15 +604,81 @@ def run(ctx):
         fail(n, "ctx_fp.FPContext", "fp.%s does not exist (the property lists the hyperbolic functions and their inverses)" % n,
              {"kind": "missing", "fun": n})
     names = [n for n in FUNS if n not in missing]
-    N = 9000 if ctx.quick else 300000
+    N = 7000 if ctx.quick else 300000
     acc_lines, acc_meta = [], []
     attr_errors = {}
     core = [n for n in names if n in TABLE]
+    families = {}
+
+    def check1(name, x, kind, cplx):
+        domname, ev = FUNS[name]
+        case = {"kind": "fp1", "fun": name, "x": repr(x), "class": kind}
+        d = per(name); d["cases"] += 1; cov["evaluations"] += 1
+        st_m, v = mp_value(name, [x])
+        if st_m == "range":
+            cov["skipped_out_of_double_range"] += 1; return
+        if st_m == "timeout":
+            cov["no_result"] += 1; return
+        st_f, w = guarded(lambda: getattr(fp, name)(x))
+        if st_f == "exc" and w == "AttributeError":
+            attr_errors[name] = attr_errors.get(name, 0) + 1
+        if st_f == "timeout":
+            cov["no_result"] += 1; return
+        cov["decided"] += 1
+        site = ("math2." if name in TABLE else "functions.") + name
+        if st_m == "exc":
+            # mp raises (poles such as cot(0)): fp must not return a finite value silently either
+            if st_f == "ok" and isinstance(w, (float, complex)) and cmath.isfinite(w):
+                informational.setdefault("mp raises %s, fp returns a finite value" % v, []).append(case)
+            return
+        if st_m == "special":
+            # mp returns an infinity / nan (log(0) = -inf, atanh(1) = inf, ...)
+            if st_f != "ok":
+                fail(name, "ctx_fp.FPContext" if w == "AttributeError" else site, "fp.%s(%r) raises %s where mp returns %s" % (name, x, w, v), case)
+            elif type(w) not in (float, complex) or str(mp.mpmathify(w)) != v:
+                fail(name, site, "fp.%s(%r) = %r where mp returns %s" % (name, x, w, v), case)
+            return
+        if st_f != "ok":
+            fail(name, "ctx_fp.FPContext" if w == "AttributeError" else site, "fp.%s(%r) raises %s; mp returns %r" % (name, x, w, v), case)
+            return
+        if type(w) not in (float, complex):
+            fail(name, site, "fp.%s(%r) returns a %s, not float/complex" % (name, x, type(w).__name__), case)
+            return
+        case["fp"] = repr(w)
+        if not cmath.isfinite(w):
+            fail(name, site, "fp.%s(%r) = %r is not finite; mp returns %r" % (name, x, w, v), case)
+            return
+        if not cplx:
+            inside = DOM[domname](x)
+            if inside:
+                d["real_branch"] += 1
+                if type(w) is not float and not (isinstance(v, complex)):
+                    fail(name, site, "fp.%s(%r) inside the real domain returns the complex %r (mp: %r)" % (name, x, w, v), case)
+                    return
+            else:
+                d["complex_branch"] += 1
+                if type(w) is float and isinstance(v, complex) and v.imag != 0:
+                    fail(name, site, "fp.%s(%r) outside the real domain returns the float %r, mp returns %r" % (name, x, w, v), case)
+                    return
+        if agree(w, v):
+            d["agree"] += 1
+            if len(samples) < 6 and kind in ("near_k_pi_2", "above_one", "complex"):
+                samples.append({"fun": name, "x": repr(x), "fp": repr(w), "mp": repr(v)})
+        else:
+            b = blame(name, [x], w, v)
+            fail(name, b or narrow_site(name, x, w, v, cplx, site),
+                 "fp.%s(%r) = %r differs from mp's 53-bit value %r by more than max(2^-48 rel, 2^-300 abs)%s" %
+                 (name, x, w, v, " [mp at 200 bits agrees with fp: the 53-bit mp value is the inaccurate one]" if b else ""), case)
+        if (not cplx) and ev and type(w) is float and DOM[domname](x) and math.isfinite(w):
+            mx, ex = dy(x)
+            mw, ew = dy(w)
+            acc_lines.append("acc %s %d %d %d %d 53 5" % (ev, mx, ex, mw, ew)); acc_meta.append((name, case, w))
+
+    # 1. seeded mixture
     for i in range(N):
         name = names[i % len(names)]
         if attr_errors.get(name, 0) >= 5:
             name = core[i % len(core)]            # a function that cannot be called at all is reported 5 times, not 300
-        domname, ev = FUNS[name]
         cplx = r.random() < 0.12
         if cplx:
             a, _ = g.double(name)
@@ -219,69 +691,67 @@ def run(ctx):
             kind = "complex"
         else:
             x, kind = g.double(name)
-        case = {"kind": "fp1", "fun": name, "x": repr(x), "class": kind}
-        d = per(name); d["cases"] += 1; cov["evaluations"] += 1
-        st_m, v = mp_value(name, [x])
-        if st_m == "range":
-            cov["skipped_out_of_double_range"] += 1; continue
-        if st_m == "timeout":
-            cov["no_result"] += 1; continue
-        st_f, w = guarded(lambda: getattr(fp, name)(x))
-        if st_f == "exc" and w == "AttributeError":
-            attr_errors[name] = attr_errors.get(name, 0) + 1
-        if st_f == "timeout":
-            cov["no_result"] += 1; continue
-        cov["decided"] += 1
-        site = ("math2." if name in TABLE else "functions.") + name
-        if st_m == "exc":
-            # mp raises (poles such as cot(0)): fp must not return a finite value silently either
-            if st_f == "ok" and isinstance(w, (float, complex)) and cmath.isfinite(w):
-                informational.setdefault("mp raises %s, fp returns a finite value" % v, []).append(case)
-            continue
-        if st_m == "special":
-            # mp returns an infinity / nan (log(0) = -inf, atanh(1) = inf, ...)
-            if st_f != "ok":
-                fail(name, "ctx_fp.FPContext" if w == "AttributeError" else site, "fp.%s(%r) raises %s where mp returns %s" % (name, x, w, v), case)
-            elif type(w) not in (float, complex) or str(mp.mpmathify(w)) != v:
-                fail(name, site, "fp.%s(%r) = %r where mp returns %s" % (name, x, w, v), case)
-            continue
-        if st_f != "ok":
-            fail(name, "ctx_fp.FPContext" if w == "AttributeError" else site, "fp.%s(%r) raises %s; mp returns %r" % (name, x, w, v), case)
-            continue
-        if type(w) not in (float, complex):
-            fail(name, site, "fp.%s(%r) returns a %s, not float/complex" % (name, x, type(w).__name__), case)
-            continue
-        case["fp"] = repr(w)
-        if not cmath.isfinite(w):
-            fail(name, site, "fp.%s(%r) = %r is not finite; mp returns %r" % (name, x, w, v), case)
-            continue
-        if not cplx:
-            inside = DOM[domname](x)
-            if inside:
-                d["real_branch"] += 1
-                if type(w) is not float and not (isinstance(v, complex)):
-                    fail(name, site, "fp.%s(%r) inside the real domain returns the complex %r (mp: %r)" % (name, x, w, v), case)
-                    continue
-            else:
-                d["complex_branch"] += 1
-                if type(w) is float and isinstance(v, complex) and v.imag != 0:
-                    fail(name, site, "fp.%s(%r) outside the real domain returns the float %r, mp returns %r" % (name, x, w, v), case)
-                    continue
-        if agree(w, v):
-            d["agree"] += 1
-            if len(samples) < 6 and kind in ("near_k_pi_2", "above_one", "complex"):
-                samples.append({"fun": name, "x": repr(x), "fp": repr(w), "mp": repr(v)})
+        check1(name, x, kind, cplx)
+
+    # 2. structured neighbourhoods of the critical points of every function, real and complex
+    rs = random.Random(ctx.seed * 32452843 + 4343)
+    scale = 1 if ctx.quick else 25
+    for name in names:
+        if name in ("cospi", "sinpi"):
+            fam = []
+            for rep in range(scale):
+                fam += [(x if rs.random() < 0.5 else -x, "pi:" + tag) for x, tag in pi_family(rs)]
+            cfam = []
+            pts = pi_family(rs)
+            for x, tag in rs.sample(pts, min(len(pts), 160 * scale)):
+                y = rs.choice([0.0, -0.0, TINY, -P2(-1022), P2(-537), P2(-60), -P2(-27), 1e-3, -0.25, 1.0, -3.0, 4.0, 7.5, rs.uniform(-8, 8)])
+                cfam.append((complex(x if rs.random() < 0.5 else -x, y), "complex"))
         else:
-            b = blame(name, [x], w, v)
-            fail(name, b or site, "fp.%s(%r) = %r differs from mp's 53-bit value %r by more than max(2^-48 rel, 2^-300 abs)%s" %
-                 (name, x, w, v, " [mp at 200 bits agrees with fp: the 53-bit mp value is the inaccurate one]" if b else ""), case)
-        if (not cplx) and ev and type(w) is float and DOM[domname](x) and math.isfinite(w):
-            mx, ex = dy(x)
-            mw, ew = dy(w)
-            acc_lines.append("acc %s %d %d %d %d 53 5" % (ev, mx, ex, mw, ew)); acc_meta.append((name, case, w))
+            fam = real_family(name, rs, 100 * scale)
+            cfam = complex_family(name, rs, 130 * scale)
+        for x, kind in fam:
+            if attr_errors.get(name, 0) >= 5:
+                break
+            families[kind.split("+")[0]] = families.get(kind.split("+")[0], 0) + 1
+            check1(name, x, kind, False)
+        for x, kind in cfam:
+            if attr_errors.get(name, 0) >= 5:
+                break
+            families["structured_complex"] = families.get("structured_complex", 0) + 1
+            check1(name, x, kind, True)
 
     # two-argument power
-    NP = 1500 if ctx.quick else 40000
+    def check2(a, b, kind):
+        case = {"kind": "fp2", "fun": "power", "x": repr(a), "y": repr(b), "class": kind}
+        d = per("power"); d["cases"] += 1; cov["evaluations"] += 1
+        st_m, v = mp_value("power", [a, b])
+        if st_m in ("range", "timeout"):
+            cov["skipped_out_of_double_range" if st_m == "range" else "no_result"] += 1; return
+        st_f, w = guarded(lambda: fp.power(a, b))
+        if st_f == "timeout":
+            cov["no_result"] += 1; return
+        cov["decided"] += 1
+        if st_m in ("exc", "special"):
+            return
+        site = "math2.pow[integer exponent]" if (type(a) is float and type(b) is float and b == math.floor(b)) else "math2.pow"
+        if st_f != "ok":
+            big = max(abs(v.real), abs(v.imag)) if isinstance(v, complex) else abs(v)
+            if w == "OverflowError" and big >= 2.0 ** 1022:
+                cov["skipped_out_of_double_range"] += 1; return      # within a factor 4 of the overflow threshold
+            fail("power", site, "fp.power(%r, %r) raises %s; mp returns %r" % (a, b, w, v), case); return
+        if type(w) not in (float, complex) and not (type(w) is int):
+            fail("power", site, "fp.power(%r, %r) returns a %s" % (a, b, type(w).__name__), case); return
+        case["fp"] = repr(w)
+        if not cmath.isfinite(w):
+            fail("power", site, "fp.power(%r, %r) = %r is not finite; mp returns %r" % (a, b, w, v), case); return
+        if agree(w if not isinstance(w, int) else float(w), v):
+            d["agree"] += 1
+        else:
+            bl = blame("power", [a, b], w, v)
+            fail("power", bl or power_site(a, b, w, v), "fp.power(%r, %r) = %r differs from mp's %r by more than the tolerance%s" %
+                 (a, b, w, v, " [mp at 200 bits agrees with fp: the 53-bit mp value is the inaccurate one]" if bl else ""), case)
+
+    NP = 1000 if ctx.quick else 40000
     for i in range(NP):
         a, ka = g.double("power")
         b, kb = g.double("power")
@@ -289,29 +759,10 @@ def run(ctx):
             a = r.uniform(-4, 4)
         if r.random() < 0.6:
             b = r.choice([0.5, -0.5, 2.0, 3.0, -1.0, 1 / 3., r.uniform(-6, 6)])
-        case = {"kind": "fp2", "fun": "power", "x": repr(a), "y": repr(b)}
-        d = per("power"); d["cases"] += 1; cov["evaluations"] += 1
-        st_m, v = mp_value("power", [a, b])
-        if st_m in ("range", "timeout"):
-            cov["skipped_out_of_double_range" if st_m == "range" else "no_result"] += 1; continue
-        st_f, w = guarded(lambda: fp.power(a, b))
-        if st_f == "timeout":
-            cov["no_result"] += 1; continue
-        cov["decided"] += 1
-        if st_m in ("exc", "special"):
-            continue
-        if st_f != "ok":
-            if w == "OverflowError":
-                cov["skipped_out_of_double_range"] += 1; continue
-            fail("power", "math2.pow", "fp.power(%r, %r) raises %s; mp returns %r" % (a, b, w, v), case); continue
-        if type(w) not in (float, complex) and not (type(w) is int):
-            fail("power", "math2.pow", "fp.power(%r, %r) returns a %s" % (a, b, type(w).__name__), case); continue
-        if not cmath.isfinite(w):
-            fail("power", "math2.pow", "fp.power(%r, %r) = %r is not finite; mp returns %r" % (a, b, w, v), case); continue
-        if agree(w if not isinstance(w, int) else float(w), v):
-            d["agree"] += 1
-        else:
-            fail("power", "math2.pow", "fp.power(%r, %r) = %r differs from mp's %r by more than the tolerance" % (a, b, w, v), case)
+        check2(a, b, "mixture")
+    for a, b, kind in power_family(rs, ctx.quick):
+        families["power:" + kind.split(":")[0]] = families.get("power:" + kind.split(":")[0], 0) + 1
+        check2(a, b, kind)
 
     verdicts = ask(acc_lines)
     vt = {"ok": 0, "violates": 0, "undecided": 0}
@@ -328,13 +779,19 @@ def run(ctx):
     cov["undecided"] = cov["skipped_out_of_double_range"] + cov["no_result"]
     cov["rule"] = ("seeded binary64 arguments per function: ordinary, [-1,1], just above 1, 1 +- 2^-k, half-integers, tiny (to subnormal), "
                    "huge, doubles nearest to k*pi/2 (continued fraction of the verified pi enclosure), small integers, signed zeros, +-1, "
-                   "random bit patterns, complex pairs; power with two arguments. Non-trivial = decided (both fp and mp produced a result "
+                   "random bit patterns, complex pairs; power with two arguments; structured families (module docstring): critical-point "
+                   "neighbourhoods of every function in ulps (real, complex, complex-typed reals), cospi/sinpi at the half-integers of every "
+                   "binade up to 2^53 and beyond, power with zero bases / integer exponents up to 1000 / bases next to 1 / the whole range. Non-trivial = decided (both fp and mp produced a result "
                    "inside the binary64 range, or one of them raised)")
     cov["samples"] = samples
     cov["input_distribution"] = g.hist
+    cov["structured_families"] = families
     cov["missing_in_fp"] = missing
     cov["failing_per_site"] = {}
     for f in fails:
         cov["failing_per_site"][f["site"]] = cov["failing_per_site"].get(f["site"], 0) + 1
     cov["wall_dynamic_s"] = round(time.time() - t0, 1)
     return {"coverage": cov, "failing_inputs": fails, "disagreements": []}
+
+
+import fp_findings3  # noqa: E402,F401  (registers the predicates of the round-3 findings with findings.PREDICATES)
